@@ -71,7 +71,9 @@ var chain = pki.SimpleChain("p256", 0, 2, "c13")
 
 var textLabels = []string{"ALG", "Cty", "IO.CNCF.NOTARY.EXPIRY", "io.cncf.notary.SigningScheme", "io.example.a", "k", "", "x-très-long-" + strings.Repeat("é", 40), "日本語", "with space", "UPPER", "signingTime", "io.cncf.notary.custom", "crit2", "alg2", "a.b", "0", "1",
 	// pairs that differ in nothing but letter case: two different headers
-	"buildId", "buildID", "upper", "IO.EXAMPLE.A", "K"}
+	"buildId", "buildID", "upper", "IO.EXAMPLE.A", "K",
+	// names of UNPROTECTED headers, used inside the protected header: extra headers like any other
+	"x5c", "io.cncf.notary.signingAgent", "io.cncf.notary.timestampSignature", "x5chain"}
 var intLabels = []int64{4, 8, 10, 13, 14, 17, 100, 255, 256, 65536, 4294967296, 9223372036854775807, -1, -2, -24, -25, -70000, -4294967297, -9223372036854775808}
 
 type valuePair struct {
